@@ -2,7 +2,7 @@ From Coq Require Import ZArith List Bool String.
 From Coq Require Import ExtrOcamlBasic.
 From Falcon.lib Require Import Wire PyStr.
 From Falcon.C14 Require Import Spec.
-From Falcon.C13 Require Import Model Spec.
+From Falcon.C13 Require Import Model ModelReaders Spec.
 Import ListNotations.
 Open Scope Z_scope.
 
@@ -61,6 +61,8 @@ Definition d_run (v : val) : list part_obs * status :=
         1 encode       [1; parts; boundary; pre; epi; fin]             -> body
         2 expected     [2; cs; cfg; parts; script]                         -> run
         3 wf_form      [3; cs; boundary; pre; parts]                   -> bool
+        5 parse through the sync reader model   [5; cs; cfg; boundary; script; body; schedule]
+        6 parse through the async reader model  [6; cs; cfg; boundary; script; chunks]
         4 oracles      [4; cs; cfg; parts; script; observed]               -> [roundtrip ok; no crash] *)
 Definition run (v : val) : val :=
   match v with
@@ -75,6 +77,12 @@ Definition run (v : val) : val :=
   | L [I 4; cs; c; ps; script; obs] =>
     L [vbool (oracle_roundtrip (dnat cs) (d_cfg c) (dlist d_part ps) (dlist d_action script) (d_run obs));
        vbool (oracle_no_crash (d_run obs))]
+  | L [I 5; cs; c; b; script; body; sched] =>
+    v_run (parse_form_sync (dnat cs) (d_cfg c) (dstr b) (dlist d_action script) (dstr body) (dlist dnat sched))
+  | L [I 6; cs; c; b; script; chunks] =>
+    let cl := dlist dstr chunks in
+    let fuel := (List.length cl + 20)%nat in
+    v_run (parse_form_async (dnat cs) fuel (d_cfg c) (dstr b) (dlist d_action script) cl)
   | _ => L [I (-1)]
   end.
 
